@@ -18,6 +18,18 @@ def features_of(pred, lines, idx, cfgname):
         f["kind"] = e["m"].get("kind")
         f["from"] = e["m"].get("from")
         f["nom"] = 1 if e["m"].get("nom") else 0
+    if e.get("ev") == "Deliver":
+        # priority of the pair the datagram arrived on, relative to the receiver's selected pair
+        try:
+            nat = {vv: k for k, vv in (g.load(cfgname, CONFIGS).get("nat") or {}).items()}
+            rcv = "A" if nat.get(e["m"]["dst"], e["m"]["dst"]).startswith("a") else "B"
+            po = e["post"][rcv]
+            tgt = [p for p in po["pairs"] if p["l"] == nat.get(e["m"]["dst"], e["m"]["dst"]) and p["r"] == e["m"]["src"]]
+            cur = [p for p in pre[rcv]["pairs"] if p["id"] == pre[rcv]["sel"]]
+            if tgt and cur:
+                f["pair_vs_sel"] = "same" if tgt[0]["id"] == cur[0]["id"] else ("lower" if tgt[0]["pr"] < cur[0]["pr"] else "higher_or_equal")
+        except (KeyError, TypeError, IndexError):
+            pass
     for a in "AB":
         try:
             if pre[a]["conn"] != e["post"][a]["conn"]:
@@ -39,7 +51,7 @@ def schedule_of(lines, start, end):
     for e in lines[start + 1:end + 1]:
         if e.get("ev") in ("Skipped", "DrainEnd", "Reset"):
             continue
-        a = {k: e[k] for k in ("ev", "ag", "m", "k", "d", "c") if k in e}
+        a = {k: e[k] for k in ("ev", "ag", "m", "k", "d", "c", "len", "stun") if k in e}
         if a["ev"] == "Vanish":
             a["ev"] = "Deliver"
         sched.append(a)
@@ -107,12 +119,19 @@ def run_batch(work, binary, verdict, run, seed, tag, stats):
         raise v.Inconclusive("monitor run of %s did not complete (%s)" % (name, r.error))
     stats["monitor_states"] += r.distinct
     stats["monitor_predicates_evaluated"] += r.distinct * len(run["preds"])
-    for pred, line in r.prints("VIOL"):
-        idx = int(line) - 1
+    viols = sorted(((int(line) - 1, pred) for pred, line in r.prints("VIOL")))
+    hit_in_trace = {}   # trace start -> ids of known findings matched earlier in that trace
+    for idx, pred in viols:
         feat = features_of(pred, lines, idx, name)
         start = max(i for i in resets if i <= idx)
         feat["trace"] = resets.index(start)
         feat["step"] = idx - start
+        if hit_in_trace.get(start):
+            # a quiescence predicate that fails at the end of a trace in which a known defect already struck
+            feat["caused_by"] = "+".join(sorted(hit_in_trace[start]))
+        k0 = v.match_known(verdict.known, feat)
+        if k0:
+            hit_in_trace.setdefault(start, set()).add(k0["id"].split("/")[0])
 
         def writer(path, start=start, idx=idx):
             json.dump({"property": verdict.prop, "cfg": name, "predicate": pred, "job": {k: job[k] for k in ("drain", "notime", "zerowait")},
